@@ -13,7 +13,6 @@ structure Conforming (c : Config) (t : Tape) (l : Layout) (atts : List (UInt8 ×
   header : HeaderOk c t l
   kdfSeed32 : ∀ r, c.kdf = .aes r → t.kdfSeed.length = 32      -- the AES-KDF seed is an AES-256 key
   innerKey : t.innerKey.length < 4294967296
-  salsaKey : c.inner = .salsa20 → t.innerKey.length = 32
   atts : attOk atts
   partition : (l.blocks ct).flatten = ct
   blocks : ∀ b ∈ l.blocks ct, b ≠ [] ∧ b.length < 4294967296
@@ -116,9 +115,7 @@ theorem C01_framing (P : Prims) (L : P.Laws) (c : Config) (t : Tape) (l : Layout
   -- inner header
   rw [innerLoop_header c t atts l.attachmentsFirst xml C.innerKey C.atts]
   simp only
-  have hs : ¬ (c.inner = InnerCipher.salsa20 ∧ t.innerKey.length ≠ 32) := by
-    intro ⟨h1, h2⟩; exact h2 (C.salsaKey h1)
-  simp only [hs, ↓reduceIte, List.drop_left' rfl]
+  simp only [List.drop_left' rfl]
 
 /-- the same statement phrased on `build` -/
 theorem C01_framing_build (P : Prims) (L : P.Laws) (c : Config) (t : Tape) (l : Layout)
